@@ -175,11 +175,27 @@ def config_scenario(rng, opts=None):
 
 def _config_scenario(rng, opts=None):
     o = {"imports": 0.5, "callbacks": True, "ncuts": None, "std_only": False,
-         "handlers": False, "decoys": False, "comp_src": 0.0}
+         "handlers": False, "decoys": False, "comp_src": 0.0,
+         "wild_defaults": 0.0}
     o.update(opts or {})
     ir = G.gen_schema(rng, {"callbacks": o["callbacks"],
                             "std_only": o["std_only"],
                             "handlers": o["handlers"]})
+    if o.get("wild_defaults") and rng.random() < o["wild_defaults"] \
+            and not any(i_.get("name") == "+" for i_ in ir["top"]):
+        # a free-key slot ("+") at top level whose keyed defaults are
+        # converted by an application datatype: texts that set no such key
+        # fall back on them, and the conversion of the k-th default is a
+        # failure point like any other conversion
+        dt_ = "zcsim.simdt.conv_%d" % rng.randint(1, 5)
+        kind_ = rng.choice(["key", "key", "multikey"])
+        nd_ = rng.randint(1, 3)
+        ir["top"].append({
+            "kind": kind_, "name": "+", "attribute": "zzwild",
+            "datatype": dt_, "required": False, "handler": None,
+            "default": [[rng.choice(["wd%d", "Wd%d"]) % (
+                j if kind_ == "key" else j // 2), "dflt%d" % j]
+                for j in range(nd_)]})
     packages, pkgfiles, ctypes = {}, {}, {}
     src_versions = {}
     with_imports = rng.random() < o["imports"]
